@@ -21,6 +21,16 @@ THEOREMS = [
     "P3R.C08.Witness.shifted_row_boundary_repaired",
     "P3R.C08.Witness.height_off_ladder_repaired",
     "P3R.C08.Witness.cap_taller_than_index_record",
+    # prover-chosen private payloads of the path rows (Props/C08Pay, Witness/C08Pay)
+    "P3R.C08.verifyCircuit2P_nil",
+    "P3R.C08.verifyCircuit4P_nil",
+    "P3R.C08.applyInputs_pinned",
+    "P3R.C08.bridge_state_pads_ignored",
+    "P3R.C08.bridge_row_pads_ignored",
+    "P3R.C08.Witness.Pay.bridge_honest_agree",
+    "P3R.C08.Witness.Pay.bridge_forged_commitment_rejected",
+    "P3R.C08.Witness.Pay.bridge_adversarial_payload_harmless",
+    "P3R.C08.Witness.Pay.unpinned_bridge_pads_matter",
 ]
 
 # Which build-time shape checks the gadget in /repo is declared to have = which repairs have been
@@ -43,7 +53,8 @@ def gadget_checks(root):
 CORRESPONDENCE = ("MMCS: p3_merkle_tree verify_batch (+ExtensionMmcs/MerkleTreeHidingMmcs) and "
                   "verify_batch_circuit{,_from_extension_opened}{,_arity4} + runner  vs  "
                   "lean/P3R/Model/MmcsNative.lean, MmcsCircuit.lean (native verdict incl. error kind, runner verdict, "
-                  "ordered fingerprint of every permutation input of the circuit run)")
+                  "ordered fingerprint of every permutation input of the circuit run; `pay` cases: the prover-chosen payload of "
+                  "one path row is given to verifyCircuit{2,4}P, the forged commitment to both models)")
 
 
 def _read(p):
@@ -123,7 +134,14 @@ def run(ctx):
                    "extension leaves; hiding on/off; toy or recorded real Poseidon2 permutation) committed by the real native MMCS; "
                    "per batch several indices (incl. 0 and max-1; all indices in the all-positions run) x {honest opening, "
                    "+1 on a leaf value / salt value / sibling word / cap word, each index bit flipped, shifted row boundary, "
-                   "claimed height off the ladder}. Every case is non-trivial (a full native verification and a full circuit run); "
+                   "claimed height off the ladder, and the adversarial-private-data leg `pay` (both gadgets, every path row "
+                   "that has chunks the native verifier fills itself = arity-4 bridge rows' two pad chunks, injection rows' "
+                   "digest + pad chunks, arity-2 injection rows' digest chunk; each full set and single chunks): "
+                   "(1) commitment replayed along the opened path with non-zero digests in those chunks (what a cheating "
+                   "committer publishes; the replay = real proof_arity_schedule + real sponge/compress, self-checked against "
+                   "the honest commitment on every case) + those digests in the row's private payload, (2) that commitment + "
+                   "honest payload, (0) honest commitment + that payload, and honest commitment + payload with surplus limbs}. "
+                   "Every case is non-trivial (a full native verification and a full circuit run); "
                    "distinct = distinct (batch shape+data seed, index, alteration) triples, hashed",
            "samples": samples[:4], "input_distribution": hist,
            "traces_validated_against_impl": validated, "disagreements_checked": disagreements,
@@ -139,7 +157,7 @@ def run(ctx):
 
 
 CHECK = {
-    "lean_modules": ["P3R.Props.C08", "P3R.Witness.C08"],
+    "lean_modules": ["P3R.Props.C08", "P3R.Witness.C08", "P3R.Props.C08Pay", "P3R.Witness.C08Pay"],
     "lean_exes": ["p3r_driver_c08"],
     "theorems": THEOREMS,
     "run": run,
@@ -158,7 +176,12 @@ CHECK = {
         "that lacks them (before fixes/C08-3, fixes/C08-2; the Checks.none witnesses show they are then necessary) and proved "
         "facts for a gadget that has them (mmcs_agree_arity2_checked)",
         "permutation: any map on lists preserving length W (theorems); runs use a toy map and the real Poseidon2 (recorded table)",
-        "arity 4: model + correspondence + negative witness only, no agreement theorem",
+        "arity 4: model + correspondence + negative witness only, no agreement theorem; proved for arity 4: a bridge row's "
+        "result does not depend on the pad digests of its private payload (bridge_row_pads_ignored: W = 4*capw, one "
+        "sibling of capw limbs, two pads of capw limbs each; every permutation, state, direction bit)",
+        "prover-chosen payloads: path rows only (compression / injection rows of the Merkle chain, ids contiguous from the "
+        "first returned op id — cross-checked per group, hist pay.skipped-rowmap-mismatch); sponge rows are not addressed "
+        "(the executor refuses private data on non-Merkle rows)",
         "D=1 permutation configurations (per-base lifting, quintic extension) are not exercised",
     ],
 }
